@@ -76,7 +76,9 @@ def is_call_to(t: T, *names: str) -> bool:
     n = tm.callee_name(t) if isinstance(t, T) else None
     if n is None:
         return False
-    return any(n == x or (x.startswith(".") and n.endswith(x)) for x in names)
+    return any(n == x or (x.startswith(".") and n.endswith(x)) or
+               (n.startswith(".") and x.endswith(n) and "." in x[:-len(n)])
+               for x in names)
 
 
 def derives_from(t: T, pred: Callable[[T], bool]) -> bool:
